@@ -304,6 +304,20 @@ fn run_sequence(rt: &tokio::runtime::Runtime, seq: &[Op], refresh_plan: &[bool],
                     req.iter().any(|p| recorded.contains(p))
                 };
                 let r = rt.block_on(add_node(o, &mut registry, &os, VerbosityLevel::Minimal)).map(|_| ()).map_err(|e| format!("{e}"));
+                // add_node saves the registry itself as it goes: whatever it returns, the file it left must
+                // describe the services it recorded in memory (antctl does not save after a failed add)
+                if serde_json::to_value(&registry).unwrap_or_default() != before_json {
+                    match NodeRegistry::load(&reg_path) {
+                        Ok(on_disk) => {
+                            let mem: Vec<(String, String)> = registry.nodes.iter().map(|x| (x.service_name.clone(), format!("{:?}", x.status))).collect();
+                            let disk: Vec<(String, String)> = on_disk.nodes.iter().map(|x| (x.service_name.clone(), format!("{:?}", x.status))).collect();
+                            if mem != disk {
+                                viol.push(("add-left-saved-registry-behind-memory".into(), format!("step {step}: add returned {r:?}; in memory {mem:?}, in the file it saved {disk:?}")));
+                            }
+                        }
+                        Err(e) => viol.push(("registry-save-load-failed".into(), format!("step {step}: the registry file left by add does not load: {e}"))),
+                    }
+                }
                 if clash {
                     let after = serde_json::to_value(&registry).unwrap_or_default();
                     if r.is_ok() || after != before_json {
@@ -465,8 +479,10 @@ fn random_sequence(rng: &mut impl Rng, max_len: usize) -> Vec<Op> {
             let count = *[1u16, 1, 2, 3].choose(rng).expect("nonempty");
             let node_port = match rng.gen_range(0..4) {
                 0 => {
-                    let base = *[12_000u16, 12_001, 12_002].choose(rng).expect("nonempty");
-                    Some((base, base + count - 1))
+                    // incl. the top of the port space
+                    let base = *[12_000u16, 12_001, 12_002, 65_533, 65_534, 65_535].choose(rng).expect("nonempty");
+                    let last = (base as u32 + count as u32 - 1).min(65_535) as u16;
+                    Some((last - (count - 1), last))
                 }
                 _ => None,
             };
